@@ -53,5 +53,5 @@ TSpec == TInit /\ [][TNext]_tvars
 Track == IF l > TLCGet(1) THEN TLCSet(1, l) ELSE TRUE
 Accepted ==
   IF TLCGet(1) = Len(Rec) + 1 THEN TRUE
-  ELSE PrintT(<<"REJECTED_AT", TLCGet(1), IF TLCGet(1) <= Len(Rec) /\ TLCGet(1) >= 1 THEN Rec[TLCGet(1)] ELSE "none">>) /\ FALSE
+  ELSE PrintT(<<"REJECTED_AT", TLCGet(1)>>) /\ FALSE
 =============================================================================
